@@ -60,7 +60,7 @@ def cases(tier, seed):
     out = []
     for s in SHAPES:
         out += [f"{s}/closed", f"{s}/roundtrip", f"{s}/segindep"]
-    out += ["hourly/stored", "caltrack/stored"]
+    out += ["hourly/stored", "caltrack/stored", "refit/daily", "refit/billing"]
     return out
 
 
@@ -358,12 +358,50 @@ def run_caltrack(case):
     case.sample(dict(family="CalTRACK hourly (tests/legacy_hourly.json, three_month_weighted)", variants=len(paths)))
 
 
+# ---------------------------------------------------------------- a model object that was fitted before
+
+def replay_refit(inp):
+    """ONE model object is fitted on meter A, predicts, is fitted on meter B (real fit/_fit/_predict, optimiser stand-ins as in
+    C02 refit): what it predicts, what its stored form predicts after a round trip and what a new object fitted on B predicts
+    must be the same numbers (the stored form is rebuilt by every fit; nothing else may survive from the earlier one)"""
+    from . import c02
+    pr = c02.refit_scenario(inp["fam"], inp["poor_a"], inp["poor_b"], inp["predict_first"], False)
+    pr = [x for x in pr if "predicted" in x or "reloaded" in x or "doc" in x]
+    return bool(pr), "; ".join(pr[:3])
+
+
+REPLAY["refit"] = replay_refit
+
+
+def run_refit(case, fam):
+    from . import dailyframe as F
+    case.inputs = []
+
+    def run():
+        cfg = dict(fam=fam, poor_a=F.choose("poor_a", [False, True]), poor_b=F.choose("poor_b", [False, True]), predict_first=F.choose("predict_first", [False, True]))
+        return cfg, replay_refit(cfg)
+
+    paths = case.explore(run)
+    for p in paths:
+        if p.outcome != "ret":
+            case.rep["harness_errors"].append(f"refit scenario raised {p.value!r}")
+            continue
+        cfg, (bad, det) = p.value
+        label = "a model fitted a second time: the live object, its reloaded stored form and a new object fitted on the same data predict identically"
+        if not case.ground(not bad, label):
+            case.violation(label, "refit", cfg, det)
+        case.regime("model object fitted twice, then stored and reloaded")
+    case.sample(dict(family=fam, histories=len(paths)))
+
+
 def run_case(case: Case, name: str):
     shape, mode = name.split("/")
     if shape == "hourly":
         return run_hourly(case)
     if shape == "caltrack":
         return run_caltrack(case)
+    if shape == "refit":
+        return run_refit(case, name.split("/")[1])
     if mode == "closed":
         return run_closed(case, shape)
     if mode == "roundtrip":
